@@ -340,7 +340,7 @@ func checkGffReader(c *Ctx, parse *ssa.Function) {
 		switch {
 		case len(ws) != 1:
 			whyS = fmt.Sprintf("%d writes into the sequence buffer, the model needs 1", len(ws))
-		case ws[0].arg.String() != line:
+		case ws[0].arg.String() != line && normText(ws[0].arg).String() != lineN:
 			stS = stateOf(false, vocabOf(line), ws[0].arg)
 			if stS == broken && !localDiff(ws[0].arg, line) {
 				stS = unknown
